@@ -11,6 +11,7 @@ PRIO = st.one_of(st.sampled_from([1, 5, 5, 5, 5, 10, 10, 4, 6, 11, 0, -1]), st.i
 _F_DELAY = [0.0, 0.0, 0.5, 1.0, 1.0, 2.0, 0.25, 3.0, 10.0, 0.1, 0.2, 0.30000000000000004]
 _F_ABS = [0.0, 1.0, 2.0, 2.5, 5.0, 10.0, 7.0, 20.0]
 _I_DELAY = [0, 0, 1, 1, 2, 3, 5, 10]
+_I_BIG = [2 ** 60, 2 ** 60 + 1, 2 ** 60 + 2, 2 ** 60 + 3, 2 ** 53, 2 ** 53 + 1]   # distinct ints, same float
 _I_ABS = [0, 1, 2, 3, 5, 10, 7, 20]
 _D_DELAY = [[fx(0.0), "s"], [fx(1.0), "s"], [fx(60.0), "s"], [fx(1.0), "min"], [fx(0.5), "min"],
             [fx(30.0), "s"], [fx(1000.0), "ms"], [fx(2.0), "min"], [fx(0.0), "h"], [fx(120.0), "s"],
@@ -29,7 +30,8 @@ def delay_strategy(clock, legal=True):
                          st.floats(-30.0, -1e-9).map(fx))
     if clock == "int":
         if legal:
-            return st.one_of(st.sampled_from(_I_DELAY), st.integers(0, 30), st.integers(0, 2 ** 100))
+            return st.one_of(st.sampled_from(_I_DELAY), st.integers(0, 30), st.integers(0, 2 ** 100),
+                             st.sampled_from(_I_BIG))
         return st.one_of(st.sampled_from([-1, -2, -10]), st.integers(-2 ** 100, -1))
     if legal:
         return st.one_of(st.sampled_from(_D_DELAY),
@@ -54,7 +56,7 @@ def rep_strategy(clock):
         warm = st.one_of(st.sampled_from([0.0, 0.0, 1.0, 2.0, 2.5, 5.0, 10.0, 50.0]), st.floats(0.0, 12.0)).map(fx)
     elif clock == "int":
         start = st.sampled_from([0, 0, 0, 5, -3, 100])
-        length = st.one_of(st.sampled_from([10, 10, 5, 1, 20, 7]), st.integers(1, 40))
+        length = st.one_of(st.sampled_from([10, 10, 5, 1, 20, 7, 2 ** 62]), st.integers(1, 40))
         warm = st.one_of(st.sampled_from([0, 0, 1, 2, 5, 10, 50]), st.integers(0, 12))
     else:
         start = st.sampled_from([[fx(0.0), "s"], [fx(0.0), "s"], [fx(1.0), "min"], [fx(30.0), "s"]])
